@@ -699,7 +699,20 @@ func TestVerif_C11_Windows(t *testing.T) {
 			var ws []map[string]interface{}
 			for a := uint(1); a <= maxAtt && a <= 3; a++ {
 				w := wins[a]
-				ws = append(ws, map[string]interface{}{"attempt": a, "ann_start": w.annStart, "ann_end": w.annEnd, "attempt_start": w.pStart, "timeout": w.timeout, "timeout_observed": w.hasTO})
+				e := map[string]interface{}{"attempt": a}
+				if w.hasAS {
+					e["ann_start"] = w.annStart
+				}
+				if w.hasAE {
+					e["ann_end"] = w.annEnd
+				}
+				if w.hasPS {
+					e["attempt_start"] = w.pStart
+				}
+				if w.hasTO {
+					e["timeout"] = w.timeout
+				}
+				ws = append(ws, e)
 			}
 			s["windows_all_members_agree_on"] = ws
 			r.Sample(s)
